@@ -27,8 +27,10 @@ RingsOf(P) == LET RECURSIVE Cat(_)
                   Cat(i) == IF i > Len(P.polys) THEN <<>> ELSE P.polys[i] \o Cat(i + 1)
               IN Cat(1)
 Single == {[kind |-> "clip", lines |-> <<l>>, ml |-> FALSE, poly |-> P] : l \in Lines, P \in Polys}
+(* a multi-line string is simple only if its members are: here the two members share no point at all *)
+Apart(a, b) == \A i \in 1..(Len(a) - 1), j \in 1..(Len(b) - 1) : ~SegsMeet(a[i], a[i + 1], b[j], b[j + 1])
 Multi == {[kind |-> "clip", lines |-> <<p[1], p[2]>>, ml |-> TRUE, poly |-> P] :
-             p \in {q \in L2 \X L3 : (HashL(q[1], 1) + 3 * HashL(q[2], 1)) % 97 = 0}, P \in Polys}
+             p \in {q \in L2 \X L3 : (HashL(q[1], 1) + 3 * HashL(q[2], 1)) % 97 = 0 /\ Apart(q[1], q[2])}, P \in Polys}
 (* lines all of whose vertices are inside P while P is not convex / has a hole / has two members: the line may leave P
    between its vertices (every 2-vertex line of the lattice, and 3-vertex lines thinned by M3 / 8) *)
 Tricky == { [t |-> "Polygon", polys |-> << <<Concave>> >>], [t |-> "Polygon", polys |-> << <<Quad, Hole>> >>],
